@@ -45,6 +45,7 @@ impl Vm {
             (VCell::Nil, VCell::Nil) => Ok(true),
             (VCell::Pair(_, _), VCell::Pair(_, _)) => Ok(left == right),
             (VCell::Char(left), VCell::Char(right)) => Ok(left == right),
+            (VCell::Symbol(left), VCell::Symbol(right)) => Ok(left == right),
             (VCell::String(left), VCell::String(right)) => Ok(left == right),
             _ => Ok(false),
         }
@@ -85,7 +86,7 @@ impl Vm {
     pub fn compare_pair(&self, mut left: VCell, mut right: VCell) -> Result<bool, Error> {
         loop {
             if !left.is_pair() || !right.is_pair() {
-                return self.eqv(&left, &right);
+                return self.equal(&left, &right);
             }
             let lcar = left.as_car()?;
             let rcar = right.as_car()?;
